@@ -21,6 +21,8 @@ func checkC24(r *Run) {
 		facts []string
 		pos   string
 		desc  string
+		key   string
+		val   string
 	}
 	var sites []site
 	for _, fn := range r.P.ModFns {
@@ -31,10 +33,11 @@ func checkC24(r *Run) {
 		for _, b := range fn.Blocks {
 			for _, in := range b.Instrs {
 				var m ssa.Value
-				kind := ""
+				kind, key, val := "", "", ""
 				switch x := in.(type) {
 				case *ssa.MapUpdate:
 					m, kind = x.Map, "insert"
+					key, val = ff.Term(x.Key), ff.Term(x.Value)
 				case *ssa.Call:
 					if calleeName(&x.Call) == "delete" {
 						m, kind = x.Call.Args[0], "delete"
@@ -54,7 +57,7 @@ func checkC24(r *Run) {
 					for _, a := range ff.Must(b) {
 						fs = append(fs, a.S)
 					}
-					sites = append(sites, site{FnName(fn), kind, name, fs, r.P.Pos(in.Pos()), t})
+					sites = append(sites, site{FnName(fn), kind, name, fs, r.P.Pos(in.Pos()), t, key, val})
 				}
 			}
 		}
@@ -81,6 +84,23 @@ func checkC24(r *Run) {
 			r.Check("C24-R1", "introduced indexes the listen address only when it is non-empty (symmetric with remove)", s.pos, has(s, `daemon.connection.ListenAddr(`+conn+`) != ""`), "an empty listen address would never be removed")
 		case s.fn == "daemon.Connections.updateMirror" && s.kind == "insert" && s.m == "mirrors" && strings.HasPrefix(s.desc, "φ("):
 			r.Check("C24-R1", "updateMirror inserts the IP only when it is not yet registered for that mirror (key-presence test)", s.pos, has(s, "!lookup(φ($0.mirrors[$2]|map{})[$1])#1"), "")
+		}
+	}
+	// the listen-address index is a multi-map: an insertion extends the list already stored under the key with the
+	// connection's own address, it never replaces the list (other live connections may be registered there)
+	nLA := 0
+	for _, s := range sites {
+		if s.kind != "insert" || s.m != "listenAddrs" || s.fn == "daemon.Connections.remove" {
+			continue
+		}
+		nLA++
+		r.Check("C24-R1", s.fn+": the listen-address entry is extended (append to the stored list), never overwritten", s.pos,
+			glob("append($0.listenAddrs["+s.key+"], [*])", s.val), "stores "+trunc(s.val, 160)+" under "+s.key)
+	}
+	r.Check("C24-R1", "listen-address insertion sites", "", nLA == 2, "")
+	for _, s := range sites {
+		if s.kind == "insert" && s.m == "listenAddrs" && s.fn == "daemon.Connections.remove" {
+			r.Check("C24-R1", "remove writes back the stored list minus the removed connection", s.pos, strings.Contains(s.val, "$0.listenAddrs["+s.key+"]"), trunc(s.val, 200))
 		}
 	}
 	// every kind of insertion has its deletion in remove
